@@ -138,13 +138,19 @@ func run1(sc *Scenario, path []string, convBin string) (res result) {
 				res.divergedAt = i + 1
 				break
 			}
-			if errors.Is(err, ErrJobStuck) && i == len(path)-1 {
-				res.viol = append(res.viol, V{"C09", "c09.job-never-completes", err.Error()})
+			// (at an earlier step of a replay: the service did not do again what it did when the history was
+			// recorded - the execution is judged as the one it is and not expanded)
+			at := ""
+			if i != len(path)-1 {
+				at = fmt.Sprintf("at step %d of %d of the history (which went through when it was recorded): ", i+1, len(path))
+			}
+			if errors.Is(err, ErrJobStuck) {
+				res.viol = append(res.viol, V{"C09", "c09.job-never-completes", at + err.Error()})
 				res.canon = "stuck:" + res.pathDesc
 				return
 			}
-			if errors.Is(err, ErrPhantomWork) && i == len(path)-1 {
-				res.viol = append(res.viol, V{"C09", "c09.work-claimed-without-a-job", err.Error()})
+			if errors.Is(err, ErrPhantomWork) {
+				res.viol = append(res.viol, V{"C09", "c09.work-claimed-without-a-job", at + err.Error()})
 				res.canon = "phantom:" + res.pathDesc
 				return
 			}
